@@ -53,6 +53,8 @@ func main() {
 			runTransport(*out, *seed, *tier)
 		case "nodemonitor":
 			runNodeMonitor(*out, *seed, *tier)
+		case "gsnode":
+			runGsNode(*out, *seed, *tier)
 		case "wire":
 			runWire(*out, *seed, *tier)
 		case "crash":
